@@ -112,7 +112,28 @@ def l1_l2(ctx, F):
                        "exact root entry, which can already be above the limit (`go depth 5` then `go depth 3` on the same position), so the "
                        "test never fires and the search runs on until stopped",
                   expected="limit <= depth", found=hir.fmt(b, 80))
-    # the exit test must be reached in every completed iteration: it is a top-level statement of the loop body
+    # L1c: the counter starts at 1 or exactly at the depth of the cached *exact* root entry - an iteration the table answers at no
+    # cost, after which the limit test fires.  Starting any higher searches deeper than the limit before the test is reached.
+    start = sym_start(it)
+    if start[0] == "var":
+        for n2, anc2 in hir.walk(body):
+            if n2.get("k") == "SLet" and n2["pat"].get("k") == "PBind" and n2["pat"]["name"] == start[1] and n2.get("init") is not None \
+                    and "Mut" not in n2["pat"].get("mode", "").replace("Not)", ""):
+                start = sym(n2["init"])
+    st_txt = hir.fmt(start, 400)
+    want = ("<T>::unwrap_or(<T>::map(<K, V, S, A>::get(table, Game::hash(game)), |entry| if (entry.flag == NodeType::Exact) {entry.depth} else {1}), 1)")
+    alt_ok = False
+    vals = set()
+    for x in hir.subterms(start):
+        if len(x) == 4 and x[0] == "if":
+            for br in (x[2], x[3]):
+                vals.add(hir.fmt(br, 40))
+    alt_ok = st_txt.startswith("<T>::unwrap_or(") and st_txt.endswith(", 1)") and vals == {"entry.depth", "1"} and \
+        "get(table, Game::hash(game))" in st_txt and "NodeType::Exact" in st_txt
+    ctx.check("C08.L1", "iteration-starts-at-1-or-at-the-cached-exact-depth", st_txt == want or alt_ok, fn=DRIVER, file=fn["file"], line=hir.line(node),
+              what="the first iteration must be depth 1 or the depth of the cached exact root entry (answered from the table for free, then "
+                   "the limit test fires); starting above it makes `go depth N` with N below the cached depth run a real search deeper than N",
+              expected="1 | entry.depth of the exact root entry", found=st_txt)
     return U
 
 
